@@ -91,14 +91,15 @@ func (o *obs) allOK() string {
 }
 
 type protoSpec struct {
-	Name    string
-	N       int    // number of acting parties
-	D       int    // columns of the MSP of the access structure (threshold t)
-	Family  string // draw-spec family of the model
-	Sched   bool   // reads of round 1 after the deterministic prefix are scheduling dependent (Gennaro)
-	Signing bool   // has nonce commitments (freshness across sessions)
-	Heavy   bool   // stored Paillier material, slow
-	Run     func(seed int64, labels map[sharing.ID]string) *obs
+	Name          string
+	N             int    // number of acting parties
+	D             int    // columns of the MSP of the access structure (threshold t)
+	Family        string // draw-spec family of the model
+	Sched         bool   // reads of round 1 after the deterministic prefix are scheduling dependent (Gennaro)
+	Signing       bool   // has nonce commitments (freshness across sessions)
+	Heavy         bool   // stored Paillier material, slow
+	NoQuickStingy bool   // same sampling code as another entry (lindell22 flavours; dkls23-bbot = dkls23-softspoken + ot-ecbbot): stingy-source family only in the thorough tier
+	Run           func(seed int64, labels map[sharing.ID]string) *obs
 }
 
 func idsN(n int) []sharing.ID {
@@ -461,11 +462,11 @@ func protocols(tier string) []protoSpec {
 		{Name: "canetti", N: n, D: t, Family: "canetti", Run: runCanetti(n, t)},
 		{Name: "hjky", N: n, D: t, Family: "hjky", Run: runHjky(n, t)},
 		{Name: "redistribute", N: n, D: t, Family: "redistribute", Run: runRedistribute(n, t)},
-		{Name: "dkls23-bbot", N: no, D: to, Family: "dkls23-bbot", Signing: true, Heavy: true, Run: runDkls(no, to, "bbot", "k256")},
+		{Name: "dkls23-bbot", N: no, D: to, Family: "dkls23-bbot", Signing: true, Heavy: true, NoQuickStingy: true, Run: runDkls(no, to, "bbot", "k256")},
 		{Name: "dkls23-softspoken", N: no, D: to, Family: "dkls23-softspoken", Signing: true, Heavy: true, Run: runDkls(no, to, "softspoken", "k256")},
 		{Name: "lindell22-bip340", N: n, D: t, Family: "lindell22", Signing: true, Run: runL22(n, t, "bip340")},
-		{Name: "lindell22-schnorr-k256", N: n, D: t, Family: "lindell22", Signing: true, Run: runL22(n, t, "schnorr-k256")},
-		{Name: "lindell22-mina", N: n, D: t, Family: "lindell22", Signing: true, Run: runL22(n, t, "mina")},
+		{Name: "lindell22-schnorr-k256", N: n, D: t, Family: "lindell22", Signing: true, NoQuickStingy: true, Run: runL22(n, t, "schnorr-k256")},
+		{Name: "lindell22-mina", N: n, D: t, Family: "lindell22", Signing: true, NoQuickStingy: true, Run: runL22(n, t, "mina")},
 		{Name: "boldyreva-short-basic", N: n, D: t, Family: "boldyreva", Run: runBls(n, t, "short", "basic")},
 		{Name: "lindell17", N: 2, D: 2, Family: "lindell17", Signing: true, Heavy: true, Run: runL17()},
 		{Name: "ot-ecbbot", N: 2, D: 2, Family: "ot", Run: runOtVole("ecbbot", 128, 1)},
